@@ -120,11 +120,21 @@ func (c *cluster) getClient() (cl *clientv3.Client, err error)
   flag allocates
   ensures err == nil ==> cl != nil
 
+// a request context lives for the request timeout and hangs off context.Background(): nothing else - a shutdown
+// of the embedded server in particular - can cancel the contexts of the requests made after a restart, which is
+// what lets the syncer's periodic pull converge again
 func (c *cluster) requestContext() (ctx context.Context, cancel context.CancelFunc)
-  trusted
   flag allocates
   pure
+  requires c != nil
   ensures ctx != nil
+  ensures bounded-by-the-request-timeout-only: ctxTimeout(ifaceVal(ctx)) == c.requestTimeout && isBackground(ctxParent(ifaceVal(ctx)))
+func (c *cluster) longRequestContext() (ctx context.Context, cancel context.CancelFunc)
+  flag allocates
+  pure
+  requires c != nil
+  ensures ctx != nil
+  ensures bounded-by-three-request-timeouts-only: ctxTimeout(ifaceVal(ctx)) == 3 * c.requestTimeout && isBackground(ctxParent(ifaceVal(ctx)))
 
 func (c *cluster) GetRawPrefix#cancel()
   trusted
